@@ -62,6 +62,9 @@ pub enum Fault {
     Nudge { at: Pos, w: u8, up: bool },
     /// copy the w-byte field at `src` over the one at `dst` (an index equal to a count, ...)
     CopyField { dst: Pos, src: Pos, w: u8 },
+    /// append `kib` KiB (64..=160) of plausible filler: a corrupt length field is then followed by
+    /// more real data than any first chunk / "remaining input" plausibility test looks at
+    Pad { kib: u8, byte: u8 },
 }
 
 impl Fault {
@@ -76,6 +79,7 @@ impl Fault {
             Fault::Cut(..) => "cut",
             Fault::Nudge { .. } => "nudge",
             Fault::CopyField { .. } => "copy_field",
+            Fault::Pad { .. } => "pad_64k+",
         }
     }
     fn apply(&self, b: &mut Vec<u8>, true_len: usize) {
@@ -155,6 +159,10 @@ impl Fault {
                     let v = if *up { v.wrapping_add(1) } else { v.wrapping_sub(1) };
                     b[i..i + w].copy_from_slice(&v.to_le_bytes()[..w]);
                 }
+            }
+            Fault::Pad { kib, byte } => {
+                let n = (*kib as usize).clamp(64, 160) * 1024 + 17;
+                b.extend((0..n).map(|i| byte.wrapping_add((i % 251) as u8)));
             }
             Fault::CopyField { dst, src, w } => {
                 let w = match w {
@@ -289,9 +297,11 @@ const CONTENTS: &[Content] = &[
 fn mutated(max: u16) -> BoxedStrategy<Case> {
     let len = prop_oneof![3 => 0u16..=12.min(max), 5 => 0u16..=max.min(80), 2 => 0u16..=max];
     let faults = prop_oneof![
-        1 => Just(vec![]),
-        6 => fault().prop_map(|f| vec![f]),
-        2 => proptest::collection::vec(fault(), 2..=3),
+        30 => Just(vec![]),
+        180 => fault().prop_map(|f| vec![f]),
+        60 => proptest::collection::vec(fault(), 2..=3),
+        // a length-field fault followed by 64-160 KiB of trailing data
+        5 => (fault(), 64u8..=160, any::<u8>()).prop_map(|(f, kib, byte)| vec![f, Fault::Pad { kib, byte }]),
     ];
     (proptest::sample::select(CONTENTS.to_vec()), len, any::<u64>(), faults, len_arg(), any::<u8>())
         .prop_map(|(content, len, seed, faults, la, aux)| Case { src: Src::Mut { content, len, seed, faults }, len: la, aux })
@@ -2143,7 +2153,7 @@ impl Prop for P {
         "fault_enumeration"
     }
     fn rule(&self) -> &'static str {
-        "one cell per parser; per cell (a) mutated valid encodings: the matching encoder runs inside the worker on a small generated seed payload, then 0-3 generated faults (truncate, substitute byte, flip bit, overwrite an aligned/unaligned 2/4/8-byte window with 0xFF../0x7F../len+1/len-1/0/0x80.., splice, append garbage, cut, add/subtract one to a 1/2/4/8-byte little-endian field, copy one field over another) and one of ten expected-length arguments (true, 0, 1, true+-1, 2*true+3, 2^20, 2^27, 2^32-1, usize::MAX); (b) arbitrary bytes <= 4 KiB; (c) for the reorder-map reader a grammar of well-formed entries (single / sequence, lengths 0, 1, small, 127, 128, non-canonical zero, 2^35) with an announced size that is the sum of all entries, of all but the first or last, off by one, zero or far too large; plus a fixed enumeration per cell (every byte of the first 256 and last 24 nudged by +-1, truncation at every length 0..=255 and the last 24 positions, every 2/4/8-byte window of the first 96 bytes and the trailer maximised, every length argument). Non-trivial = the input passes the parser's first magic/length gate (cheap per-cell predicate) or the parser returned Ok or panicked; distinct by hash of (cell, input bytes, length argument, entry point)"
+        "one cell per parser; per cell (a) mutated valid encodings: the matching encoder runs inside the worker on a small generated seed payload, then 0-3 generated faults (truncate, substitute byte, flip bit, overwrite an aligned/unaligned 2/4/8-byte window with 0xFF../0x7F../len+1/len-1/0/0x80.., splice, append garbage, cut, add/subtract one to a 1/2/4/8-byte little-endian field, copy one field over another, a field fault followed by 64-160 KiB of trailing filler) and one of ten expected-length arguments (true, 0, 1, true+-1, 2*true+3, 2^20, 2^27, 2^32-1, usize::MAX); (b) arbitrary bytes <= 4 KiB; (c) for the reorder-map reader a grammar of well-formed entries (single / sequence, lengths 0, 1, small, 127, 128, non-canonical zero, 2^35) with an announced size that is the sum of all entries, of all but the first or last, off by one, zero or far too large; plus a fixed enumeration per cell (every byte of the first 256 and last 24 nudged by +-1, truncation at every length 0..=255 and the last 24 positions, every 2/4/8-byte window of the first 96 bytes and the trailer maximised, every length argument). Non-trivial = the input passes the parser's first magic/length gate (cheap per-cell predicate) or the parser returned Ok or panicked; distinct by hash of (cell, input bytes, length argument, entry point)"
     }
     fn assumptions(&self) -> Vec<String> {
         vec![
